@@ -16,6 +16,19 @@ type TypeInfo struct {
 	PkgPath string
 }
 
+// IsPackageLevelType reports whether the named type is declared at package level.
+// Annotations are only read from package-level declarations, so a function-local type
+// that merely shares its name with an annotated type must not be looked up by name.
+func IsPackageLevelType(named *types.Named) bool {
+	obj := named.Obj()
+	if obj.Pkg() == nil {
+		return false
+	}
+	// Objects that were never inserted into a scope have no parent; local types always do.
+	parent := obj.Parent()
+	return parent == nil || parent == obj.Pkg().Scope()
+}
+
 // ExtractTypeInfo extracts type name and package path from a types.Type
 // Returns nil if the type is not a named type or has no package
 func ExtractTypeInfo(t types.Type) *TypeInfo {
@@ -36,7 +49,7 @@ func ExtractTypeInfo(t types.Type) *TypeInfo {
 
 	typeName := named.Obj().Name()
 	pkg := named.Obj().Pkg()
-	if pkg == nil {
+	if pkg == nil || !IsPackageLevelType(named) {
 		return nil
 	}
 
